@@ -24,7 +24,7 @@ bool operator==(const Payload& lhs, const Payload& rhs) noexcept
     const uint8_t* rhsRaw = rhs.getRawPayload();
 
     if (lhsRaw == rhsRaw)
-        return false;
+        return true;
 
     for (size_t i = 0; i < lhs.getLength(); ++i)
         if (lhsRaw[i] != rhsRaw[i])
